@@ -1195,6 +1195,14 @@ int pbtMain(int argc, char** argv, const Property<Case>& prop)
             Info info;
             currentCaseText() = serialize(c);
             Verdict v = execute(prop, c, info, opt.fork);
+            // schedule-dependent checks (C19): one replay executes the case up to VF_REPLAY_REPEAT times - a failure that needs a rare
+            // interleaving is a sample; on a tree where the property holds no execution ever fails, however often it is repeated
+            const int repeat = getenv("VF_REPLAY_REPEAT") ? atoi(getenv("VF_REPLAY_REPEAT")) : 1;
+            for (int r = 1; r < repeat && v.ok; ++r)
+            {
+                Info again;
+                v = execute(prop, c, again, opt.fork);
+            }
             stats.record(currentCaseText(), info);
             if (v.ok)
                 printf("REPLAY-PASS %s\n", file.c_str());
